@@ -201,6 +201,16 @@ let run_case (suite : string) (r : rd) : unit =
   | "vttwritem" ->
     let d = rvdoc r in
     pres pstr (write_vtt d (List.map fst d.vd_styles) (List.map fst d.vd_regions))
+  | "convsv" ->
+    let d = rstr r in
+    let res = convert_srt_vtt d in
+    if List.for_all html_simple (lines d) then pres pstr res
+    else (Buffer.add_string b "NS "; pres (fun _ -> ()) res)
+  | "convvs" ->
+    let d = rstr r in
+    let res = convert_vtt_srt d in
+    if List.for_all vtt_line_simple (lines d) then pres pstr res
+    else (Buffer.add_string b "NS "; pres (fun _ -> ()) res)
   | "trimspace" -> pstr (trim_space (rstr r))
   | "atoi" -> poptz (atoi (rstr r))
   | _ -> failwith ("unknown suite " ^ suite)
